@@ -13,6 +13,15 @@ import (
 func init() {
 	registry["DEBUG"] = func(c *Ctx) {
 		p := c.Prog("amd64")
+		if os.Getenv("DBGRMW") != "" {
+			surveyRMW(p)
+		}
+		if os.Getenv("DBGOVW") != "" {
+			surveyOverwritten(p)
+		}
+		if os.Getenv("DBGCARRY") != "" {
+			surveyCarry(p)
+		}
 		if os.Getenv("DBGINNER") != "" {
 			surveyInnerPtr(p)
 		}
@@ -30,6 +39,11 @@ func init() {
 		if f == nil {
 			fmt.Println("function not found")
 			return
+		}
+		if os.Getenv("DBGMOD") != "" {
+			for _, w := range p.Mod().of(f) {
+				fmt.Printf("  MOD root=%s via=%s at %s\n", w.Root, w.Via, p.pos(w.Pos))
+			}
 		}
 		if os.Getenv("DBGCALLS") != "" {
 			for _, b := range f.Blocks {
@@ -244,6 +258,95 @@ func surveyAppendField(p *Program) {
 					}
 				}
 				fmt.Printf("APPENDFIELD back=%v %s: %s: append(%s, ...)\n", back, p.pos(call.Pos()), fname(f), descVal(call.Call.Args[0]))
+			}
+		}
+	}
+}
+
+// surveyCarry: math/bits Add64/Sub64 calls whose carry-out is not used.
+func surveyCarry(p *Program) {
+	tot, disc := 0, 0
+	for f := range p.AllFuncs {
+		if f.Blocks == nil || !isCirclFunc(f) || f.Synthetic != "" {
+			continue
+		}
+		for _, b := range f.Blocks {
+			for _, in := range b.Instrs {
+				call, ok := in.(*ssa.Call)
+				if !ok {
+					continue
+				}
+				cn := p.staticCalleeName(&call.Call)
+				if cn != "math/bits.Add64" && cn != "math/bits.Sub64" && cn != "math/bits.Add" && cn != "math/bits.Sub" {
+					continue
+				}
+				tot++
+				used := false
+				for _, r := range *call.Referrers() {
+					if ex, ok := r.(*ssa.Extract); ok && ex.Index == 1 && len(*ex.Referrers()) > 0 {
+						used = true
+					}
+				}
+				if !used {
+					disc++
+					_, cin := call.Call.Args[2].(*ssa.Const)
+					fmt.Printf("CARRY %s: %s: %s carry-in-const=%v x=%s y=%s\n", p.pos(call.Pos()), fname(f), cn, cin, descVal(call.Call.Args[0]), descVal(call.Call.Args[1]))
+				}
+			}
+		}
+	}
+	fmt.Printf("CARRY total=%d discarded=%d\n", tot, disc)
+}
+
+func surveyOverwritten(p *Program) {
+	tot := 0
+	for f := range p.AllFuncs {
+		if f.Blocks == nil || !isCirclFunc(f) || f.Synthetic != "" {
+			continue
+		}
+		s, n := overwrittenChecks(f)
+		tot += n
+		for _, v := range s {
+			fmt.Printf("OVERWRITTEN %s: %s: %s\n", p.pos(v.Pos()), fname(f), descVal(v))
+		}
+	}
+	fmt.Printf("OVERWRITTEN examined=%d\n", tot)
+}
+
+// surveyRMW: read-modify-write stores into memory rooted at a byte/word slice or array parameter.
+func surveyRMW(p *Program) {
+	for f := range p.AllFuncs {
+		if f.Blocks == nil || !isCirclFunc(f) || f.Synthetic != "" {
+			continue
+		}
+		for _, b := range f.Blocks {
+			for _, in := range b.Instrs {
+				st, ok := in.(*ssa.Store)
+				if !ok {
+					continue
+				}
+				bo, ok := st.Val.(*ssa.BinOp)
+				if !ok {
+					continue
+				}
+				rmw := false
+				for _, o := range []ssa.Value{bo.X, bo.Y} {
+					if ld, ok := o.(*ssa.UnOp); ok && ld.Op == token.MUL && descAddr(ld.X) == descAddr(st.Addr) {
+						rmw = true
+					}
+				}
+				if !rmw {
+					continue
+				}
+				base, _ := memRoot(st.Addr)
+				par, ok := base.(*ssa.Parameter)
+				if !ok || !(sliceLike(par.Type())) {
+					continue
+				}
+				if _, ok := st.Addr.(*ssa.IndexAddr); !ok {
+					continue
+				}
+				fmt.Printf("RMW %s: %s: %s %s= …\n", p.pos(st.Pos()), fname(f), descAddr(st.Addr), bo.Op)
 			}
 		}
 	}
